@@ -105,8 +105,39 @@ def contracts(save):
     return C
 
 
+OPAQUE_ALLOC = True     # np.empty(n) allocates an opaque flat buffer (garbage content) in this module's cases
+
+
+def init_contract(save):
+    """Grid.__init__ establishes the structural part of the class invariant every other method starts from (the data clause
+    'the data buffer holds the model field' has nothing to say about freshly allocated memory): three (two) distinct buffers of
+    the handler's bufferSize each, distinct in-range roles, the visible block is a view of the data buffer, the layout object is
+    the one named, nothing is saved."""
+    n = 3 if save else 2
+    ens = ['self.hasSaveMemory == %s' % save, 'len(self._my_data) == %d' % n,
+           '0 <= self._dataIdx and self._dataIdx < %d' % n, '0 <= self._buffIdx and self._buffIdx < %d' % n,
+           'self._dataIdx != self._buffIdx',
+           'same_buf(self._f, self._my_data[self._dataIdx])',
+           'distinct_bufs(self._my_data[0], self._my_data[1]%s)' % (', self._my_data[2]' if save else ''),
+           'self._current_layout_name == chosenLayout', 'self._layout._name == self._current_layout_name',
+           'self._layout_manager is layouts', 'self._nDims == 4',
+           'forall(0, 4, lambda k: self._nGlobalCoords[k] == len(eta_grid[k]))']
+    ens += ['self._my_data[%d].size == layouts._buffer_size' % k for k in range(n)]
+    if save:
+        ens += ['self.notSaved == True', '0 <= self._saveIdx and self._saveIdx < 3', 'self._saveIdx != self._dataIdx',
+                'self._saveIdx != self._buffIdx']
+    return dict(
+        params={'self': {'__class__': F + '::Grid'}, 'eta_grid': 'list4arr1', 'bsplines': 'opaque',
+                'layouts': {'__class__': L + '::LayoutHandler', '_buffer_size': 'int'}, 'chosenLayout': 'name', 'comm': 'comm',
+                'kwargs': {'__dict__': {'allocateSaveMemory': ('const', True)}} if save else {'__dict__': {}}},
+        requires=['layouts._buffer_size > 0'], modifies=[], ensures=ens)
+
+
 def cases(tier, rng=None):
     out = []
+    for save in (True, False):
+        C = {L + '::LayoutHandler.getLayout': GETLAYOUT, F + '::Grid.__init__': init_contract(save)}
+        out.append(dict(label='__init__ save_memory=%s' % save, struct=None, key=F + '::Grid.__init__', contracts=C))
     for save in (True, False):
         for m in ('setLayout', 'getAllData', 'saveGridValues', 'freeGridSave', 'restoreGridValues'):
             out.append(dict(label='%s save_memory=%s' % (m, save), struct=None, key=F + '::Grid.' + m, contracts=contracts(save)))
